@@ -73,7 +73,7 @@ fn matrix() -> Vec<Cfg> {
 pub fn run(cfg: &RunCfg) -> Ctx {
     let m = Arc::new(matrix());
     let n = m.len() as u64;
-    let reps = if cfg.thorough { 3 } else { 1 };
+    let reps = if cfg.thorough { 12 } else { 1 };
     let mut all = Ctx::new();
     let mm = m.clone();
     all.merge(par_cases(cfg, "matrix", n * reps, || (), move |_, rng, ctx, i| case(rng, ctx, mm[(i % n) as usize], i / n)));
